@@ -1,6 +1,46 @@
 import WhVerif.Util.Proto
+import WhVerif.Model.C07
+import WhVerif.Spec.C07
 namespace WhVerif.Driver.C07
-open Lean WhVerif.Proto
-/-- ops of property C07 are named `c07.<name>`; return `none` for ops that are not ours -/
-def handle (_op : String) (_j : Json) : Option Json := none
+open Lean WhVerif.Proto WhVerif.C07
+
+/-- a read is `[[positions], [qualities], preferred(0/1)]` -/
+def parseRead (j : Json) : Option Read := do
+  match (← asArr? j) with
+  | [p, q, f] => some { pos := (← natList? p), qual := (← intList? q), pref := (← asNat? f) != 0 }
+  | _ => none
+
+def parseReads (j : Json) (k : String) : Option (List Read) := do (← getList? j k).mapM parseRead
+
+def outJson : Outcome → Json
+  | .valueError => Json.str "ValueError"
+  | .misuse => Json.str "misuse"
+  | .outOfFuel => Json.str "outOfFuel"
+  | .ok sel => ofNatList (sortNat sel)
+
+def handle (op : String) (j : Json) : Option Json :=
+  if op == "c07.outcomes" then
+    match parseReads j "reads", getNat? j "k", getBool? j "bridging", getBool? j "fixed" with
+    | some reads, some k, some br, some fixed =>
+      let paths := explore fixed reads k br
+      some (Json.mkObj [("outcomes", ofList outJson (allOutcomes fixed reads k br)), ("paths", ofNat paths.length)])
+    | _, _, _, _ => some badInput
+  else if op == "c07.run" then
+    match parseReads j "reads", getNat? j "k", getBool? j "bridging", getBool? j "fixed", getNatList? j "choices" with
+    | some reads, some k, some br, some fixed, some cs => some (outJson (readselection fixed reads k br cs))
+    | _, _, _, _, _ => some badInput
+  else if op == "c07.spec" then
+    -- the property predicates on an arbitrary index set (the implementation's output)
+    match parseReads j "reads", getNat? j "k", getNatList? j "selected" with
+    | some reads, some k, some sel =>
+      some (Json.mkObj [("subset", Json.bool (subsetOK reads sel)), ("cap", Json.bool (capOK reads k sel)),
+                        ("maximal", Json.bool (maximalOK reads k sel))])
+    | _, _, _ => some badInput
+  else if op == "c07.score" then
+    match parseReads j "reads" with
+    | some reads =>
+      let P := positions reads
+      some (ofList (fun r => let s := initScore P r; ofIntList [s.a, s.b, s.q]) reads)
+    | none => some badInput
+  else none
 end WhVerif.Driver.C07
